@@ -46,6 +46,13 @@ Proof.
     split; [exact H4|exact H5].
 Qed.
 
+Lemma GS_bfill_m : forall b,
+  buf_ok b -> match bfill b with None => True | Some b1 => same_strm b b1 end.
+Proof.
+  intros b Hok. unfold bfill. destruct (bsize b <=? blen b) eqn:E4; [exact I|].
+  change 100%nat with (S 99). apply GS_fill_loop_any; [exact Hok|lia].
+Qed.
+
 (* ---------------------------------------------------------------- (P) Peek, any n *)
 Lemma GS_peek_loop_any : forall fuel b n b',
   buf_ok b -> peek_loop fuel b n = Some b' -> same_strm b b'.
@@ -54,9 +61,8 @@ Proof.
   cbn [peek_loop] in Hp.
   destruct ((blen b <? n) && (blen b <? bsize b) &&
             match berr b with None => true | Some _ => false end) eqn:Ec.
-  - unfold bfill in Hp. destruct (bsize b <=? blen b) eqn:E4; [discriminate Hp|].
-    change 100%nat with (S 99) in Hp.
-    assert (Hs : same_strm b (fill_loop (S 99) b)) by (apply GS_fill_loop_any; [exact Hok|lia]).
+  - pose proof (GS_bfill_m b Hok) as Hs.
+    destruct (bfill b) as [b1|]; [|discriminate Hp].
     eapply same_strm_trans; [exact Hs|].
     eapply IH; [apply Hs|exact Hp].
   - inversion Hp; subst b'. apply same_strm_refl; exact Hok.
@@ -151,13 +157,11 @@ Lemma GS_discard_loop_any : forall fuel b remain e b',
 Proof.
   induction fuel as [|f IH]; intros b remain e b' Hok Hd; [discriminate Hd|].
   cbn [discard_loop] in Hd.
-  destruct (if blen b =? 0 then bfill b else Some b) as [b1|] eqn:Eob; [|discriminate Hd].
-  assert (Hs : same_strm b b1).
-  { destruct (blen b =? 0) eqn:E0.
-    - unfold bfill in Eob. destruct (bsize b <=? blen b) eqn:E4; [discriminate Eob|].
-      inversion Eob; subst b1. change 100%nat with (S 99).
-      apply GS_fill_loop_any; [exact Hok|lia].
-    - inversion Eob; subst b1. apply same_strm_refl; exact Hok. }
+  assert (Hs0 : match (if blen b =? 0 then bfill b else Some b) with
+                | None => True | Some b1 => same_strm b b1 end).
+  { destruct (blen b =? 0); [apply GS_bfill_m; exact Hok|apply same_strm_refl; exact Hok]. }
+  destruct (if blen b =? 0 then bfill b else Some b) as [b1|]; [|discriminate Hd].
+  pose proof Hs0 as Hs. clear Hs0.
   eapply same_drop_trans; [exact Hs|].
   assert (Hok1 : buf_ok b1) by apply Hs.
   cbn [bsize bbuf blen berr chunks term consumed] in Hd.
@@ -281,8 +285,15 @@ Proof.
   destruct ((bBuffered (rBuf f) <=? held) && negb (haveBits f)).
   - destruct (bPeek (rBuf f) (held + 1)) as [[[[bytes n] e] rb]|] eqn:EP; [|exact H].
     pose proof (SI_peek _ _ _ _ _ _ _ _ _ H EP) as Hrb.
-    destruct e as [[| | |]|]; dproj; try exact Hrb; apply T; dproj; exact Hrb.
-  - apply T. dproj. exact H.
+    destruct e as [[| | |]|]; dproj; try exact Hrb.
+    + apply (T (mkD (state f) (writePos f) (readPos f) (hist f) rb (derr f) (peekSize f) true
+                    (haveBits f))). exact Hrb.
+    + apply (T (mkD (state f) (writePos f) (readPos f) (hist f) rb (derr f) (peekSize f) false
+                    (haveBits f))). exact Hrb.
+    + apply (T (mkD (state f) (writePos f) (readPos f) (hist f) rb (derr f) (peekSize f) false
+                    (haveBits f))). exact Hrb.
+  - apply (T (mkD (state f) (writePos f) (readPos f) (hist f) (rBuf f) (derr f) (peekSize f) false
+                  (haveBits f))). exact H.
 Qed.
 
 Lemma SI_step_discard_at : forall data sz tm held f e f',
